@@ -1134,3 +1134,37 @@ NP('n_ref3_handle_data_validation', ALL, 'R21: validation prefix of handle_data 
 NP('n_ref3_member_probe', ALL, 'R22: member.rs / probe.rs third pass', 'selftest/neutral/R22.diff')
 NP('n_ref3_codecs_payload', ALL, 'R23: codecs through shared generic helpers, payload predicates', 'selftest/neutral/R23.diff')
 NP('n_ref3_identity_fns', ALL, 'R24: change_identity / attempt_rejoin / handle_self_update / set_config third pass', 'selftest/neutral/R24.diff')
+
+# ---------------------------------------------------------------- frame rules added after seed round 5
+M('frame_updates_replaced_on_idle', ['C15', 'C11'], ['C15-R0', 'C11-R0'], 'become_disconnected swaps in a fresh update backlog',
+  (LIB, '''        self.connection_state = ConnectionState::Disconnected;
+
+        // Ignore every timer event we sent up until this point.''', '''        self.connection_state = ConnectionState::Disconnected;
+        self.updates = Broadcasts::new();
+
+        // Ignore every timer event we sent up until this point.'''))
+M('frame_custom_backlog_replaced_on_reset', ['C16'], ['C16-R0'], 'reset() swaps in a fresh custom-broadcast backlog',
+  (LIB, '''        self.incarnation = Incarnation::default();
+        self.timer_token = self.timer_token.wrapping_add(1);
+        self.probe.clear();''', '''        self.incarnation = Incarnation::default();
+        self.custom_broadcasts = Broadcasts::new();
+        self.timer_token = self.timer_token.wrapping_add(1);
+        self.probe.clear();'''))
+M('frame_members_replaced_on_reset', ['C01', 'C09', 'C08'], ['C01-R0', 'C09-R0', 'C08-R0'], 'reset() forgets every member',
+  (LIB, '''        self.incarnation = Incarnation::default();
+        self.timer_token = self.timer_token.wrapping_add(1);
+        self.probe.clear();''', '''        self.incarnation = Incarnation::default();
+        self.members = Members::new(Vec::new());
+        self.timer_token = self.timer_token.wrapping_add(1);
+        self.probe.clear();'''))
+M('c12_probe_started_from_data', ['C12'], ['C12-R5'], 'handle_data starts a probe round for the sender of an Announce',
+  (LIB, '''            Message::Announce => self.send_message(src, Message::Feed, runtime)?,''',
+   '''            Message::Announce => {
+                let _ = self.probe.start(Member::alive(src.clone()));
+                self.send_message(src, Message::Feed, runtime)?
+            }'''))
+M('c10_self_update_from_timer', ['C10'], ['C10-R4'], 'a RemoveDown timer about our own identity is treated as being told we are down',
+  (LIB, '''            Timer::RemoveDown(down) => {''', '''            Timer::RemoveDown(down) => {
+                if down == self.identity {
+                    self.handle_self_update(Incarnation::default(), State::Down, &mut runtime)?;
+                }'''))
